@@ -2251,6 +2251,13 @@ func Run(c *lib.Ctx) {
 		fails = append(fails, lib.OracleFail{Class: class, What: what, Replay: replay})
 	}, func(line string) { fmt.Fprintln(prog, line) }, func() bool { return unknownFails >= 6 })
 
+	// 3f. the same fan-in built by a symbol.Table, the shared symbol freed or replaced (ports.go)
+	if unknownFails < 6 {
+		tf := tableFanIn(c, rng, c.Scale(120, 1200))
+		unknownFails += len(tf)
+		fails = append(fails, tf...)
+	}
+
 	// 4. Send's own guard
 	fails = append(fails, stolen(c, c.Scale(40, 300))...)
 
